@@ -81,9 +81,12 @@ func VH21a_listener() {
 		return
 	}
 	self := sock.Info().Peer
+	fate := verif.Choice("fate", 5)
+	if fate == 4 && isTLS() {
+		vnet.StallNextTLS = true // the silent peer does not even negotiate TLS
+	}
 	c1 := L.Connect("c1")
 	verif.Quiesce()
-	fate := verif.Choice("fate", 5)
 	switch fate {
 	case 0: // well-formed handshake
 		c1.PeerSend(vnet.SPHeader(self))
@@ -98,13 +101,12 @@ func VH21a_listener() {
 		c1.PeerSend(vnet.SPHeader(self)[:verif.Choice("part", 7)+1])
 		c1.PeerHangup()
 	case 4: // silent: never completes its handshake (on TLS: not even the TLS negotiation)
-		if isTLS() {
-			vnet.TLSStalled[c1] = true
-		}
 	}
 	verif.Quiesce()
 	// the library always sends its own header first
-	verif.Assert(verif.BytesEq(c1.Out[:min(8, len(c1.Out))], vnet.SPHeader(sock.Info().Self)), "C15/tcp/own-header-first")
+	if !(fate == 4 && isTLS()) { // (nothing can be written before the TLS negotiation has completed)
+		verif.Assert(verif.BytesEq(c1.Out[:min(8, len(c1.Out))], vnet.SPHeader(sock.Info().Self)), "C15/tcp/own-header-first")
+	}
 	switch fate {
 	case 0:
 		verif.Assert(h.attached == 1 && !c1.Closed, lab+"/good-connection-not-attached")
